@@ -10,7 +10,20 @@ Adjustments(**kw) / Adjustments.parse_args against the extracted model on all
 subsets of the exclusive options, every adjustment x representative values x
 both runner spellings, the proxy / socket-list tables and random command
 lines; and by a search that runs the property's own statements on the real
-code (so a broken proof comes with the concrete kw set / argv)."""
+code (so a broken proof comes with the concrete kw set / argv).
+
+Command lines of any length: Spec/AdjustCli.v is the specification (option
+table derived from _params, exact-or-unique-prefix resolution, --x=v / --x v /
+--x / --no-x, `--`, first non-option word, last occurrence wins, --listen
+accumulates, help / call / app) and Props/C20.v C20_cli_all proves
+cli_construct e argv = cli_spec e argv for EVERY argv.  K-adj runs generated
+command lines of 1..8 options through the REAL waitress.runner.run (with _serve
+replaced by a shim that builds Adjustments(**kw) as serve() does), through the
+real parse_args, through the extracted model, and through the extracted
+specification whose keyword form is handed to the real Adjustments(**kw).
+Documentation: every default stated in docs/arguments.rst, runner.HELP and
+docs/runner.rst against the effective default; the documented header kinds
+against the implemented ones."""
 from lib import vcommon
 
 LEVEL = "proof"
@@ -18,7 +31,8 @@ ASSUMPTIONS = [
     "socket.getaddrinfo is replaced by a deterministic stand-in (numeric ports, one or two addresses per host) that the model mirrors; resolve_wsgi_app is replaced by a marker; socket objects are unbound real sockets or a socket.socket subclass with settable family/type",
     "CPython's getopt.getopt (3.12, long options only) and int()/str.splitlines()/str.split()/str.strip() are modelled by hand and compared on every run; int() of non-ASCII decimal digits and str.lower() outside latin-1 are not modelled (the harness checks that no such character lower-cases onto a letter used by truthy or KNOWN_PROXY_HEADERS)",
     "platform: not Windows (the WIN branch of the listen loop is not modelled); HAS_IPV6 and hasattr(socket, 'AF_UNIX') are read from the running interpreter and passed to the model",
-    "documentation is compared on option NAMES (and on flag-vs-value form in runner.HELP); of the documented defaults only those the model reads are fixed (host 0.0.0.0, port 8080, ipv4/ipv6 on, trusted_proxy_count 1, implicit x-forwarded-proto); `sockets` is exempt from the command-line list",
+    "documentation is compared on option NAMES, on flag-vs-value form in runner.HELP, on the header kinds named in the trusted_proxy_headers entries, and on every DEFAULT that docs/arguments.rst, runner.HELP and docs/runner.rst state in one of the mechanical forms `Default: ``X```, `, default ``X```, `default is 'X'`, `Default is N|True|False`, `Default: N`, `Default is the empty string`, `On/Off by default`, `active by default` (conditional defaults -- `if trusted_proxy is set, the default is` -- are skipped and covered by C20_proxy_defaults); prose that contradicts itself (the stale `default value is set to False` warning under clear_untrusted_proxy_headers, `--no-ipv6 ... will turn on IPv6`) is outside; `sockets` is exempt from the command-line list",
+    "command lines: sys.argv[0] handling, sys.path.append, logging set-up and show_help's text are not modelled; resolve_wsgi_app is a marker (an application that fails to import is outside); the runner is observed at the _serve(app, **kw) call, the shim then builds Adjustments(**kw) exactly as waitress.serve -> create_server does",
     "proxy trust options = trusted_proxy_count and trusted_proxy_headers (docs/arguments.rst additionally calls clear_untrusted_proxy_headers without trusted_proxy an error; the code and the property text do not)",
 ]
 
@@ -29,7 +43,7 @@ def run(ctx):
     ctx.translate({"GenAdjust"})
     ctx.gate()
     props_ok, failing, log = ctx.props()
-    ctx.build(["Model/Adjust.vo"])
+    ctx.build(["Model/Adjust.vo", "Spec/AdjustCli.vo"])
     runner = ctx.runner("adjust", "ExtAdjust.v")
     if runner is None:
         ctx.oblige("extracted adjustments runner builds", False, "see notes")
@@ -72,11 +86,16 @@ def run(ctx):
         "rule": "non-trivial = distinct (form, input) whose construction was ACCEPTED by the real code, or a cast that returned a value; "
                 "all %d subsets of {listen,host,port,sockets,unix_socket} x 2 value sets x orderings x {alone, +threads, +unknown name}; "
                 "every adjustment x the value pool of its cast through Adjustments(**kw), --x=v, --x v (--x / --no-x for flags); "
-                "proxy options 4 x 3 x %d header values; socket lists up to length %d over 10 kinds; random command lines" % (
+                "proxy options 4 x 3 x %d header values; socket lists up to length %d over 10 kinds; random command lines; "
+                "command lines of 1..8 options (every prefix of every option name, directed blank-value / exclusive / repeat cases, generated ones with repeats, abbreviations, "
+                "= and space forms, blank values, --no- forms, listen accumulation, help/call/app, terminators, one malformed word in 12%%) through runner.run, parse_args, the model "
+                "and the specification's keyword form; header kinds: 6 documented + candidates x 3 spellings x both forms; every documented default" % (
                     R.subsets, len(H.HEADER_VALUES), 2 if ctx.tier == "quick" else 3),
         "samples": [{"group": g, "outcomes": d} for g, d in sorted(R.dist.items())][:12],
         "outcome_distribution": R.dist,
         "exclusive_subsets_enumerated": R.subsets,
+        "command_lines": getattr(R, "cli_stats", {}),
+        "documented_default_rows": getattr(R, "doc_rows", {}),
         "model_disagreements": len(R.model_bad),
         "spec_counterexamples": len(R.spec_bad),
     })
